@@ -1,0 +1,162 @@
+//go:build verif
+
+// Contracts for the consumer side of nsqd, part 1: the per-connection counters and the readiness
+// test of client_v2.go (C03, C13, C02, C09). Comment-only file, checked by nsqvc.
+//
+// Go's counters are fixed-width: atomic.AddInt64 / AddUint64 wrap. The exact deltas are therefore
+// stated with wrapI64 / wrapU64 (two's complement / modulo 2^64); each contract also carries the
+// plain "+1 / -1" corollary for the case that no wrap occurs.
+
+package nsqd
+
+//@ fn wrapU64(x int) int := fmod(x, 18446744073709551616)
+//@ fn wrapI64(x int) int := fmod(x + 9223372036854775808, 18446744073709551616) - 9223372036854775808
+
+// The channel's pause flag (atomic int32, 1 = paused).
+//@ pred chanPaused(ch *Channel) := ch.paused == 1
+
+//@ func (c *Channel) IsPaused() bool
+//@   props C03
+//@   requires c != nil
+//@   ensures[flag] result == chanPaused(c)
+//@   modifies
+
+// readyFor(c): the decision of the delivery pump. A consumer is served only when its channel is not
+// paused, it has announced RDY > 0 and its unanswered messages are fewer than its RDY count.
+//@ pred readyFor(c *clientV2) := !chanPaused(c.Channel) && c.ReadyCount > 0 && c.InFlightCount < c.ReadyCount
+
+// Called by the pump only after SUB stored the channel (messagePump tests subChannel != nil first).
+//@ func (c *clientV2) IsReadyForMessages() bool
+//@   props C03 C13
+//@   requires c != nil && c.Channel != nil
+//@   ensures[ready-implies] result ==> !chanPaused(c.Channel) && c.ReadyCount > 0 && c.InFlightCount < c.ReadyCount
+//@   ensures[converse] !chanPaused(c.Channel) && c.ReadyCount > 0 && c.InFlightCount < c.ReadyCount ==> result
+//@   ensures[paused-nothing] chanPaused(c.Channel) ==> !result
+//@   ensures[rdy0-nothing] c.ReadyCount <= 0 ==> !result
+//@   ensures[full-nothing] c.InFlightCount >= c.ReadyCount ==> !result
+//@   modifies
+
+// Wakes the pump; touches no counter.
+//@ func (c *clientV2) tryUpdateReadyState()
+//@   props C03 C13
+//@   requires c != nil
+//@   modifies
+
+//@ func (c *clientV2) SetReadyCount(count int64)
+//@   props C03 C13
+//@   requires c != nil
+//@   ensures[ready-set] c.ReadyCount == count
+//@   modifies c.ReadyCount
+
+//@ func (c *clientV2) FinishedMessage()
+//@   props C03 C13 C02
+//@   requires c != nil
+//@   ensures[finish-count] c.FinishCount == wrapU64(old(c.FinishCount) + 1)
+//@   ensures[in-flight] c.InFlightCount == wrapI64(old(c.InFlightCount) - 1)
+//@   ensures[finish-count-nowrap] old(c.FinishCount) < 18446744073709551615 ==> c.FinishCount == old(c.FinishCount) + 1
+//@   ensures[in-flight-nowrap] old(c.InFlightCount) > -9223372036854775808 ==> c.InFlightCount == old(c.InFlightCount) - 1
+//@   modifies c.FinishCount, c.InFlightCount
+
+//@ func (c *clientV2) RequeuedMessage()
+//@   props C03 C13 C02
+//@   requires c != nil
+//@   ensures[requeue-count] c.RequeueCount == wrapU64(old(c.RequeueCount) + 1)
+//@   ensures[in-flight] c.InFlightCount == wrapI64(old(c.InFlightCount) - 1)
+//@   ensures[requeue-count-nowrap] old(c.RequeueCount) < 18446744073709551615 ==> c.RequeueCount == old(c.RequeueCount) + 1
+//@   ensures[in-flight-nowrap] old(c.InFlightCount) > -9223372036854775808 ==> c.InFlightCount == old(c.InFlightCount) - 1
+//@   modifies c.RequeueCount, c.InFlightCount
+
+//@ func (c *clientV2) SendingMessage()
+//@   props C03 C13 C02
+//@   requires c != nil
+//@   ensures[message-count] c.MessageCount == wrapU64(old(c.MessageCount) + 1)
+//@   ensures[in-flight] c.InFlightCount == wrapI64(old(c.InFlightCount) + 1)
+//@   ensures[message-count-nowrap] old(c.MessageCount) < 18446744073709551615 ==> c.MessageCount == old(c.MessageCount) + 1
+//@   ensures[in-flight-nowrap] old(c.InFlightCount) < 9223372036854775807 ==> c.InFlightCount == old(c.InFlightCount) + 1
+//@   modifies c.MessageCount, c.InFlightCount
+
+//@ func (c *clientV2) TimedOutMessage()
+//@   props C03 C13 C02
+//@   requires c != nil
+//@   ensures[in-flight] c.InFlightCount == wrapI64(old(c.InFlightCount) - 1)
+//@   ensures[in-flight-nowrap] old(c.InFlightCount) > -9223372036854775808 ==> c.InFlightCount == old(c.InFlightCount) - 1
+//@   modifies c.InFlightCount
+
+//@ func (c *clientV2) Empty()
+//@   props C03 C13
+//@   requires c != nil
+//@   ensures[in-flight-zero] c.InFlightCount == 0
+//@   modifies c.InFlightCount
+
+// CLS: RDY is forced to 0 and the connection is marked closing; a closing connection with RDY 0 is
+// never ready again (RDY is ignored in state closing, see protocolV2.RDY).
+//@ func (c *clientV2) StartClose()
+//@   props C03 C13
+//@   requires c != nil
+//@   ensures[ready-zero] c.ReadyCount == 0
+//@   ensures[closing] c.State == stateClosing
+//@   ensures[not-ready] c.Channel != nil ==> !readyFor(c)
+//@   modifies c.ReadyCount, c.State
+
+//@ func (c *clientV2) Pause()
+//@   props C03
+//@   requires c != nil
+//@   modifies
+
+//@ func (c *clientV2) UnPause()
+//@   props C03
+//@   requires c != nil
+//@   modifies
+
+// ---- IDENTIFY settings (C09): accepted iff in the documented range, else error and unchanged ----
+// Ranges are in milliseconds on the wire; the limits are durations (ns) of the current options.
+//@ pred hbInRange(c *clientV2, d int) := d >= 1000 && d <= curOpts(c.nsqd).MaxHeartbeatInterval / 1000000
+//@ func (c *clientV2) SetHeartbeatInterval(desiredInterval int) error
+//@   props C09
+//@   requires c != nil && c.nsqd != nil
+//@   ensures[disable] desiredInterval == -1 ==> result == nil && c.HeartbeatInterval == 0
+//@   ensures[default] desiredInterval == 0 ==> result == nil && c.HeartbeatInterval == old(c.HeartbeatInterval)
+//@   ensures[accepted-in-range] hbInRange(c, desiredInterval) ==> result == nil && c.HeartbeatInterval == desiredInterval * 1000000
+//@   ensures[refused-out-of-range] desiredInterval != -1 && desiredInterval != 0 && !hbInRange(c, desiredInterval) ==> result != nil
+//@   ensures[refused-unchanged] result != nil ==> c.HeartbeatInterval == old(c.HeartbeatInterval)
+//@   modifies c.HeartbeatInterval
+
+//@ pred mtInRange(c *clientV2, m int) := m >= 1000 && m <= curOpts(c.nsqd).MaxMsgTimeout / 1000000
+//@ func (c *clientV2) SetMsgTimeout(msgTimeout int) error
+//@   props C09 C02
+//@   requires c != nil && c.nsqd != nil
+//@   ensures[default] msgTimeout == 0 ==> result == nil && c.MsgTimeout == old(c.MsgTimeout)
+//@   ensures[accepted-in-range] mtInRange(c, msgTimeout) ==> result == nil && c.MsgTimeout == msgTimeout * 1000000
+//@   ensures[refused-out-of-range] msgTimeout != 0 && !mtInRange(c, msgTimeout) ==> result != nil
+//@   ensures[refused-unchanged] result != nil ==> c.MsgTimeout == old(c.MsgTimeout)
+//@   modifies c.MsgTimeout
+
+//@ func (c *clientV2) SetSampleRate(sampleRate int32) error
+//@   props C09
+//@   requires c != nil
+//@   ensures[accepted-in-range] 0 <= sampleRate && sampleRate <= 99 ==> result == nil && c.SampleRate == sampleRate
+//@   ensures[refused-out-of-range] sampleRate < 0 || sampleRate > 99 ==> result != nil
+//@   ensures[refused-unchanged] result != nil ==> c.SampleRate == old(c.SampleRate)
+//@   modifies c.SampleRate
+
+// Output buffer: timeout in [min, max] ms or -1 (none) or 0 (keep); size in [64, max] or -1 (none: size 1 and
+// no timeout) or 0 (keep). A flush error (I/O) is reported after the fields were set; range errors must leave
+// both fields unchanged.
+//@ pred obtOK(c *clientV2, t int) := t == -1 || t == 0 || (t >= curOpts(c.nsqd).MinOutputBufferTimeout / 1000000 && t <= curOpts(c.nsqd).MaxOutputBufferTimeout / 1000000)
+//@ pred obsOK(c *clientV2, s int) := s == -1 || s == 0 || (s >= 64 && s <= curOpts(c.nsqd).MaxOutputBufferSize)
+//@ func (c *clientV2) SetOutputBuffer(desiredSize int, desiredTimeout int) error
+//@   props C09 C03
+//@   requires c != nil && c.nsqd != nil
+//@   ensures[refused-timeout] !obtOK(c, desiredTimeout) ==> result != nil
+//@   ensures[refused-size] !obsOK(c, desiredSize) ==> result != nil
+//@   ensures[accepted-keep] obtOK(c, desiredTimeout) && desiredSize == 0 ==> result == nil
+//@   ensures[timeout-set] result == nil && desiredSize != -1 ==> c.OutputBufferTimeout == (desiredTimeout == -1 ? 0 : (desiredTimeout == 0 ? old(c.OutputBufferTimeout) : desiredTimeout * 1000000))
+//@   ensures[size-set] result == nil ==> c.OutputBufferSize == (desiredSize == -1 ? 1 : (desiredSize == 0 ? old(c.OutputBufferSize) : desiredSize))
+//@   ensures[unbuffered] result == nil && desiredSize == -1 ==> c.OutputBufferTimeout == 0
+//@   ensures[refused-timeout-unchanged] !obtOK(c, desiredTimeout) ==> c.OutputBufferTimeout == old(c.OutputBufferTimeout) && c.OutputBufferSize == old(c.OutputBufferSize) && c.Writer == old(c.Writer)
+// A refused size leaves the size and the writer alone. (The timeout may already have been stored when the
+// size is refused: the property only asks that out-of-range values are refused - IDENTIFY answers such a
+// call with a fatal error and the connection closes - so "timeout unchanged too" would demand more than
+// the property states; an earlier version of this clause did and raised a false alarm.)
+//@   ensures[refused-size-unchanged] !obsOK(c, desiredSize) ==> c.OutputBufferSize == old(c.OutputBufferSize) && c.Writer == old(c.Writer)
+//@   modifies c.OutputBufferTimeout, c.OutputBufferSize, c.Writer
